@@ -537,6 +537,12 @@ PROPS = {
     "C15": {
         "class_prefixes": ["c15-", "harness-crash"],
         "subs": [
+            {"name": "c12", "n_quick": 200, "n_thorough": 4000, "model": "coq/Conn/WireEvents.v, coq/Frame/AmqpFrame.v, coq/Conn/Lifecycle.v",
+             "rule": "the connection scripts of C12; here the `pw` events: 23 raw frames (every performative a connection without sessions can meet, on mapped "
+                     "and other channels, a second open, closes, empty frames, garbage bodies, a truncated begin, unknown and foreign descriptors, doff 3, "
+                     "frame type 1, a frame shorter than its header, junk after a performative, mandatory fields missing) written to an open connection, "
+                     "to one whose close is under way and to one that is discarding, each followed by close / close+error / eof / local close: the model "
+                     "classifies the frame from its bytes (on_frame_bytes) and the real engine must behave as it says"},
             {"name": "ovs", "n_quick": 40, "n_thorough": 600, "oracle": False,
              "rule": "the limit for what an endpoint reads is the max-frame-size it announced itself, whatever the peer announced: real client and real listener "
                      "with local limit L in {512, 1024, 4096, ..} against a scripted peer announcing R in {512, L, 4L, 2^24, 2^32-1}; the peer sends a close frame "
